@@ -90,3 +90,20 @@ def transition_calls_deep(P, f: Func, depth: int = 2, _seen=None):
             for (fn2, c2, r2, s2, chain) in transition_calls_deep(P, g, depth - 1, _seen | {id(f.node)}):
                 out.append((fn2, c2, r2, s2, [c] + chain))
     return out
+
+
+
+class Renumber:
+    """Proxy that files another property's obligations under this property's clause numbers; clauses listed in `drop` are the
+    other property's own and are not filed here."""
+
+    def __init__(self, ctx, table, drop=()):
+        self._ctx, self._t, self._drop = ctx, table, set(drop)
+
+    def __getattr__(self, k):
+        return getattr(self._ctx, k)
+
+    def ob(self, num, *a, **kw):
+        if num in self._drop:
+            return bool(a[2]) if len(a) > 2 else True
+        return self._ctx.ob(self._t.get(num, num), *a, **kw)
